@@ -454,6 +454,23 @@ def _perfect_cube_root(z):
     return out
 
 
+def _cbrt1(x):
+    """numpy.cbrt: real cube root of any real (negative for negative arguments)"""
+    if x is POISON:
+        return POISON
+    if isinstance(x, SymReal):
+        if _b.bool(x < 0):
+            r = cbrt_pos(-x)
+            return -r if r is not POISON else POISON
+        return cbrt_pos(x)
+    x = exact(x)
+    return -cbrt_pos(-x) if x < 0 else cbrt_pos(x)
+
+
+def cbrt(a):
+    return _map(_cbrt1, a)
+
+
 def deg2rad(x):
     return multiply(x, pi / 180)
 
